@@ -1,0 +1,12 @@
+//go:build verif
+
+package mysql
+
+import "github.com/cossacklabs/acra/decryptor/base"
+
+// Verification hook (add-only, compiled with -tags verif only).
+
+// VerifX11Subscribers returns the proxy's column subscribers in notification order.
+func VerifX11Subscribers(p base.Proxy) []base.DecryptionSubscriber {
+	return p.(*Handler).decryptionObserver.VerifX11Subscribers()
+}
